@@ -17,6 +17,10 @@ type C14Conn struct {
 	CTag      byte     `json:"ctag"`
 	STag      byte     `json:"stag"`
 	ServerNew bool     `json:"server_new,omitempty"` // the server side lost its store before this connection
+	// TamperCH: every copy of this connection's ClientHello gets an extra (unknown) extension in
+	// transit; whether the handshake is abbreviated or full, each side verifies the other's Finished
+	// over its own view of the hellos, so nobody may report success
+	TamperCH bool `json:"tamper_ch,omitempty"`
 }
 
 type C14Params struct {
@@ -56,6 +60,9 @@ func c14Gen(r *rand.Rand, tier string, idx int) any {
 		}
 		if i > 0 && r.IntN(6) == 0 {
 			c.ServerNew = true
+		}
+		if i > 0 && r.IntN(5) == 0 {
+			c.TamperCH, c.Poison = true, ""
 		}
 		p.Conns = append(p.Conns, c)
 	}
@@ -112,10 +119,35 @@ func c14Run(rc *RunCtx, params any) {
 
 			return
 		}
+		tampered := 0
+		if cc.TamperCH {
+			n.Rewrite = func(em *Emission) []byte {
+				if em.Ep != cname {
+					return em.Data
+				}
+				out, ch := rewriteUnfragmented(em.Data, HTClientHello, func(b []byte) []byte { return c04Mutate(b, HTClientHello, "ext-append", 7+k) })
+				tampered += ch
+
+				return out
+			}
+		}
 		pair.StartHandshakes(4 * time.Minute)
 		s.Run(pair.BothDone, 5*time.Minute)
 		cstore.FaultPm, sstore.FaultPm = 0, 0
 		which := fmt.Sprintf("connection %d", k)
+		if tampered > 0 {
+			s.Fault("client-hello-rewritten")
+			if pair.BothOK() {
+				rc.Violate("completed-despite-tampering", "%s: every copy of the ClientHello carried an extension the client never sent, yet both sides report a successful handshake: somebody's Finished did not cover the hellos", which)
+				pair.Teardown()
+
+				return
+			}
+			s.Probe("tampered-hello-rejected")
+			pair.Teardown()
+
+			continue
+		}
 		// ---- wire facts ----
 		col := NewHsCollector()
 		for _, em := range n.Emits {
@@ -423,4 +455,44 @@ func c14Forged(rc *RunCtx, p *C14Params) {
 		return
 	}
 	s.Probe("forged-abbreviated-rejected:" + p.Forged)
+}
+
+// rewriteUnfragmented returns the datagram with every unfragmented cleartext handshake message of
+// the given type replaced by f(body), and the number of messages it changed.
+func rewriteUnfragmented(data []byte, typ byte, f func(body []byte) []byte) ([]byte, int) {
+	recs, err := ParseDatagram(data, 0)
+	if err != nil {
+		return data, 0
+	}
+	var out []byte
+	changed := 0
+	for _, r := range recs {
+		if r.Unified || r.Type != CTHandshake || r.Epoch != 0 || len(r.Hs) == 0 {
+			out = append(out, r.Raw...)
+
+			continue
+		}
+		var body []byte
+		for _, fr := range r.Hs {
+			fb, total := fr.Body, int(fr.Length)
+			if fr.Type == typ && fr.FLen == fr.Length && fr.Off == 0 {
+				if nb := f(fr.Body); !bytes.Equal(nb, fr.Body) {
+					fb, total = nb, len(nb)
+					changed++
+				}
+			}
+			h := make([]byte, 12)
+			h[0] = fr.Type
+			putU24(h[1:], total)
+			putU16(h[4:], int(fr.MsgSeq))
+			putU24(h[6:], int(fr.Off))
+			putU24(h[9:], len(fb))
+			body = append(append(body, h...), fb...)
+		}
+		hdr := append([]byte(nil), r.Raw[:11]...)
+		hdr = append(hdr, byte(len(body)>>8), byte(len(body)))
+		out = append(append(out, hdr...), body...)
+	}
+
+	return out, changed
 }
